@@ -84,6 +84,8 @@ def rot_of(spec):
     if via == "xyz":
         a = spec["axis"]
         return polish(rotz(a[2]) @ roty(a[1]) @ rotx(a[0]))
+    if via == "cube":
+        return np.rint(rodrigues(spec["axis"], spec["angle"])) + 0.0      # exact signed-permutation matrix (no -0.0)
     return rodrigues(spec["axis"], spec["angle"])
 
 
